@@ -106,6 +106,25 @@ pub fn dw_string() -> String { String::from("dw") }
 pub fn dw_opt() -> Option<u8> { Some(9) }
 pub fn dw_tricky() -> Tricky { Tricky(5) }
 
+/// a string-like inner type for default / transparent variants whose INHERENT methods carry the names of the conversion
+/// traits' methods and answer differently: generated code must call the traits by path
+#[derive(Debug, Clone, PartialEq, Default)]
+pub struct TrickyStr(pub String);
+impl<'x> From<&'x str> for TrickyStr { fn from(s: &'x str) -> Self { TrickyStr(s.to_string()) } }
+impl AsRef<str> for TrickyStr { fn as_ref(&self) -> &str { &self.0 } }
+impl core::fmt::Display for TrickyStr { fn fmt(&self, f: &mut core::fmt::Formatter) -> core::fmt::Result { core::fmt::Display::fmt(self.0.as_str(), f) } }
+impl TrickyStr {
+    pub fn as_ref(&self) -> &str { "inherent decoy" }
+    pub fn into(self) -> &'static str { "inherent decoy" }
+    pub fn to_string(&self) -> String { String::from("inherent decoy") }
+    pub fn fmt(&self, f: &mut core::fmt::Formatter) -> core::fmt::Result { f.write_str("inherent decoy") }
+    pub fn from(_s: &str) -> u8 { 0 }
+}
+
+/// Debug, no Display
+#[derive(Debug, Clone, PartialEq)]
+pub struct DbgOnly(pub u8);
+
 /// a field type whose INHERENT `default()` is not its `Default::default()`: generated code must name the trait
 #[derive(Debug, Clone, PartialEq, Eq, Hash, PartialOrd, Ord)]
 pub struct Tricky(pub u8);
@@ -126,6 +145,10 @@ pub fn user_err(s: &str) -> UserErr {
     UserErr(s.to_string())
 }
 impl<'x> From<&'x str> for UserErr { fn from(s: &'x str) -> UserErr { user_err(s) } }
+/// an error function that is generic in its RETURN type (`parse_err_fn = err_into`); only the declared error type pins it down
+pub fn err_into<X: for<'x> From<&'x str>>(s: &str) -> X { X::from(s) }
+/// an inherent method named like a conversion trait's: generated code must not reach conversions through method-call syntax
+impl UserErr { pub fn into(self) -> UserErr { UserErr(String::from("inherent decoy")) } }
 pub fn user_err_generic<S: AsRef<str>>(s: S) -> UserErr { user_err(s.as_ref()) }
 /// a generic user error type (its parameter is the enum's own type parameter)
 #[derive(Debug, Clone, PartialEq)]
